@@ -314,8 +314,9 @@ def run(chk):
     chase_rule(chk, prog)
     from ..progress import run_progress
     run_progress(chk, prog, "K1-progress", lambda src: src.startswith("lib/tar/"))
-    from .c15 import codec_rule
-    codec_rule(chk, load_program("tar2sqfs"))     # corrupted compressed input must not make the wrappers spin
+    from .c15 import codec_rule, ok_progress_rule
+    codec_rule(chk, load_program("tar2sqfs"))
+    ok_progress_rule(chk, load_program("tar2sqfs"))     # corrupted compressed input must not make the wrappers spin
     cleanup_rule(chk)
     controls(chk)
     chk.floor("K6-limit", 4)
@@ -326,6 +327,7 @@ def run(chk):
     chk.floor("K8-dangling", 8)
     chk.floor("K1-progress", 1)
     chk.floor("K1-chase", 1)
+    chk.floor("K1-okprogress", 4)
     chk.floor("K-codec", 4)
 
 
